@@ -17,6 +17,11 @@
       raise (the library's `…Error` Type objects, compared by name).
     * depth: the try-nesting fits into the jump-buffer array (`s.depth + nest p ≤ maxDepth`); beyond it the machine
       aborts (`C07_overflow_aborts`), it never performs an undefined jump and never hangs (`C07_no_undefined_jump`).
+      The property's own nesting bound is the FIXED number `nestBound` = 2048 (Cello/Exn.lean), not the generated
+      constant: `C07_depth_capacity` (`nestBound ≤ CelloGen.Exn.maxDepth`) is the obligation a shrunk
+      `EXCEPTION_MAX_DEPTH` breaks; through it `C07_within_nesting_bound…` state the refinement for every program of
+      nesting ≤ 2048 with no mention of the source's capacity, and `C07_capacity_never_reached` says that on those
+      programs the overflow branch of `exception_try` is never taken (helper: CelloProofs/Lemmas/ExnDepth.lean).
   Catch filters are arbitrary lists: the hypothesis `nodupFilters` (finding KF-C07-filter-dup) is gone with fix a0ef2da;
   it survives only in the theorems about the OLD machine (`C07_foreach_walk_…`).
 -/
@@ -26,6 +31,7 @@ import CelloProofs.Lemmas.ExnWalk
 import CelloProofs.Lemmas.ExnDomain
 import CelloProofs.Lemmas.ExnRefine
 import CelloProofs.Lemmas.ExnWorld
+import CelloProofs.Lemmas.ExnDepth
 
 namespace Cello.Exn
 
@@ -65,6 +71,34 @@ theorem C07_current_source (p : Prog) (x : Nat) (s : St) (ha : s.active = false)
     (hx : x ≠ 0) (hd : inDomain p = true) :
     Agrees s (runNow p x s) (eval p x) :=
   C07_machine_refines_reference CelloGen.Exn.maxDepth p x s ha hn hx hd
+
+/-! ### the capacity of the jump-buffer stack against the nesting bound of the property -/
+
+/-- **The jump-buffer stack of the code as it is now holds every nesting the property speaks about**: the property's
+    nesting bound `nestBound` (2048 try blocks open at once in one thread — a fixed number, Cello/Exn.lean) does not
+    exceed `EXCEPTION_MAX_DEPTH` as the translator reads it from src/Exception.c (the number `exception_try` compares
+    `e->depth` with, and the dimension of `struct Exception.buffers`). A source change that shrinks the capacity (seeded
+    change c07_j: 2048 → 64) makes exactly this statement false — every theorem whose hypothesis is
+    `… ≤ CelloGen.Exn.maxDepth` would silently follow the smaller number. -/
+theorem C07_depth_capacity : nestBound ≤ CelloGen.Exn.maxDepth := by decide
+
+/-- the capacity `exception_try` tests against is the number of slots the record really has, and the two block copies of
+    the buffer array (Exception_New's memset, Exception_Assign's memcpy) cover exactly that many slots (translator:
+    `buffersLen`, `buffersInitLen`, `buffersCopyLen`) — an array dimension shrunk on its own would let `exception_try`
+    write past the record before its overflow test fires -/
+theorem C07_buffers_hold_capacity :
+    CelloGen.Exn.maxDepth ≤ CelloGen.Exn.buffersLen ∧
+    CelloGen.Exn.buffersInitLen = CelloGen.Exn.buffersLen ∧
+    CelloGen.Exn.buffersCopyLen = CelloGen.Exn.buffersLen := by decide
+
+/-- **C07 within the property's nesting bound** — the core statement with NO reference to the source's capacity in its
+    hypotheses: every program in the object domain whose try-nesting (lexical and dynamic), counted from the blocks
+    already open, stays within 2048 produces exactly the reference trace on the machine of the code as it is now,
+    restores the depth, and ends as the reference says. (`C07_current_source` through `C07_depth_capacity`.) -/
+theorem C07_within_nesting_bound (p : Prog) (x : Nat) (s : St) (ha : s.active = false)
+    (hn : s.depth + nest p ≤ nestBound) (hx : x ≠ 0) (hd : inDomain p = true) :
+    Agrees s (runNow p x s) (eval p x) :=
+  C07_current_source p x s ha (Nat.le_trans hn C07_depth_capacity) hx hd
 
 /-- the macros and the statement order the machine was modelled on are those of include/Cello.h and
     src/Exception.c, src/Tuple.c now -/
@@ -117,6 +151,16 @@ theorem C07_depth_restored (p : Prog) (x : Nat) (s : St) (ha : s.active = false)
     (runNow p x s).1.depth = s.depth := by
   have h := C07_current_source p x s ha hn hx hd
   rcases hev : eval p x with ⟨t, _ | e⟩ <;> rw [hev] at h <;> simp_all [Agrees]
+
+/-- … from the initial state: trace, depth 0 at the end, `normal` / `fatal` as the reference says, the escaping object
+    recorded -/
+theorem C07_top_level_within_bound (p : Prog) (x : Nat) (hn : nest p ≤ nestBound) (hx : x ≠ 0)
+    (hd : inDomain p = true) :
+    let r := runNow p x St.init
+    r.2.1 = (eval p x).1 ∧ r.1.depth = 0 ∧
+      (r.2.2 = .normal ↔ (eval p x).2 = none) ∧ (r.2.2 = .fatal ↔ (eval p x).2 ≠ none) ∧
+      (∀ e, (eval p x).2 = some e → r.1.obj = e) :=
+  C07_top_level p x (Nat.le_trans hn C07_depth_capacity) hx hd
 
 /-- **A handled exception never fires again** (machine statement, any body, any outer filter, any start state with
     nothing pending): if every exception raised inside `b` is handled inside `b` — the reference outcome of `b` is
@@ -415,6 +459,58 @@ theorem C07_current_source_any_objects (w : World) (p : Prog) (x : Nat) (s : St)
     (hx : x ≠ 0) (hd : inDomain p = true) (hc : noClash w p x = true) :
     Agrees s (runNowW w p x s) (evalW w p x) :=
   C07_any_objects w CelloGen.Exn.maxDepth p x s ha hn hx hd hc
+
+/-- … within the property's nesting bound (the statement lean/Driver/Exn.lean tests on every op file: `hyp=true` on the
+    `R` line is exactly these hypotheses at `s = St.init`, `w = harnessWorld`) -/
+theorem C07_within_nesting_bound_any_objects (w : World) (p : Prog) (x : Nat) (s : St) (ha : s.active = false)
+    (hn : s.depth + nest p ≤ nestBound) (hx : x ≠ 0) (hd : inDomain p = true) (hc : noClash w p x = true) :
+    Agrees s (runNowW w p x s) (evalW w p x) :=
+  C07_current_source_any_objects w p x s ha (Nat.le_trans hn C07_depth_capacity) hx hd hc
+
+/-- **Within the nesting bound the capacity is never reached** — no hypothesis on the program (object domain, filters,
+    clashes: any `p`), exception objects of any type: from a state with nothing pending, a program whose try-nesting
+    stays within 2048 never takes the overflow branch of `exception_try` on the code as it is now: it does not end
+    `abort`, and it does exactly what the same code with ANY larger jump-buffer stack would do (the capacity is
+    unobservable). (`runWith_within_capacity`, CelloProofs/Lemmas/ExnDepth.lean, at the generated constant.) -/
+theorem C07_capacity_never_reached (w : World) (p : Prog) (x : Nat) (s : St) (ha : s.active = false)
+    (hn : s.depth + nest p ≤ nestBound) :
+    (runNowW w p x s).2.2 ≠ .abort ∧
+    (∀ m, nestBound ≤ m → runW w true m p x s = runNowW w p x s) := by
+  have hcap : s.depth + nest p ≤ CelloGen.Exn.maxDepth := Nat.le_trans hn C07_depth_capacity
+  have hnow : runNowW w p x s = runWith (catchDecisionW w) true CelloGen.Exn.maxDepth p x s := rfl
+  refine ⟨?_, ?_⟩
+  · rw [hnow]
+    exact (runWith_within_capacity (catchDecisionW w) (catchDecisionW_ne_hang w) _ _ p x s ha hcap hcap).2
+  · intro m hm
+    rw [hnow]
+    exact (runWith_within_capacity (catchDecisionW w) (catchDecisionW_ne_hang w) m CelloGen.Exn.maxDepth p x s ha
+      (Nat.le_trans hn hm) hcap).1
+
+/-- **A shrunk jump-buffer stack refuted** (what seeded change c07_j does: capacity 64). A recursion 65 levels deep with
+    a try/catch per level, the exception thrown at the bottom: the reference — and the machine of the code as it is
+    now — run the innermost handler and complete all 65 blocks; a machine with capacity 64 runs nothing and aborts at
+    the 65th `exception_try`. The program is inside every hypothesis of `C07_within_nesting_bound`. -/
+theorem C07_shrunk_capacity_refuted :
+    let p : Prog := tower 65 (.throw 1)
+    nest p ≤ nestBound ∧ inDomain p = true ∧
+    eval p 1 = ([.handler 1, .stmt 0], none) ∧
+    (runNow p 1 St.init).2 = ([.handler 1, .stmt 0], .normal) ∧
+    (run true 64 p 1 St.init).2 = ([], .abort) := by
+  refine ⟨by decide +kernel, by decide +kernel, by decide +kernel, by decide +kernel, ?_⟩
+  exact C07_overflow_aborts 64 true (.throw 1) 1 65 St.init (by decide) (by decide)
+
+/-- Non-vacuity of `C07_within_nesting_bound`: dynamic nesting 100 deep (beyond any small bound a model checker would
+    use, and beyond the shrunk capacity of c07_j), thrown at the bottom through a callee, passed on by 98 non-matching
+    blocks, handled by the outermost but one whose handler rethrows to the outermost; a second construct afterwards
+    starts from depth 0 again. -/
+example :
+    let rec_ (n : Nat) (q : Prog) : Prog := Nat.rec q (fun _ r => .tryCatch (.call r) [3] (.stmt 7)) n
+    let p : Prog := .seq (.tryCatch (.tryCatch (rec_ 98 (.call (.throw 2))) [2, 2] (.seq (.stmt 1) .rethrow)) [] (.stmt 2))
+      (.tryCatch (.throw 4) [4] (.stmt 3))
+    nest p = 100 ∧ nest p ≤ nestBound ∧ inDomain p = true ∧
+    runNow p 1 St.init = (⟨0, false, 4⟩, [.handler 2, .stmt 1, .handler 2, .stmt 2, .handler 4, .stmt 3], .normal) ∧
+    eval p 1 = ([.handler 2, .stmt 1, .handler 2, .stmt 2, .handler 4, .stmt 3], none) := by
+  decide +kernel
 
 /-- **`C07_machine_refines_reference` is the instance "every object is a Type object with a name of its own"** — the
     restriction is a theorem, not an assumption of the representation: in that world the machine is `run`, the
